@@ -488,6 +488,12 @@ func (c *Cursor) Filter(ctx context.Context, idxStr string, val []interface{}) e
 	} else {
 		if c.max != nil {
 			err = c.cursor.Ceil(ctx, c.max)
+			if err == nil {
+				if _, _, ok := c.cursor.Get(); !ok {
+					// every key is below the upper bound; start from the last one
+					err = c.cursor.Max(ctx)
+				}
+			}
 		} else {
 			err = c.cursor.Max(ctx)
 		}
